@@ -11,6 +11,7 @@ from ..sim import Sim, Oracle, ScriptedStrategy
 from ..canon import canon, D
 from ..worlds import uni as U
 from .. import rng as R
+from .. import donors as DN
 
 from demeter.strategy.trigger import CustomizedTrigger
 
@@ -62,6 +63,9 @@ def gen_prices(rw, names, n):
 
 
 def generate(seed: int, tier: str = "quick") -> dict:
+    rv = R.sub(seed, "flavour")
+    if rv.random() < 0.5:
+        return gen_donor(seed, tier, DN.pick(rv))
     rw, rp = R.sub(seed, "world"), R.sub(seed, "program")
     interval = rw.choice(["1min"] * 4 + ["2min", "5min", "15min", "1h"])
     k = int(pd.Timedelta(interval) / pd.Timedelta("1min"))
@@ -105,6 +109,51 @@ def generate(seed: int, tier: str = "quick") -> dict:
     return {"property": ID, "seed": seed, "world": world, "program": program, "faults": [], "opts": opts}
 
 
+def gen_donor(seed, tier, donor):
+    """world and program of another market family: aave (liquidations recorded by update), squeeth + pool, deribit
+    alone (hourly bars) or beside a minutely uniswap market (expiries recorded by update), gmx v1/v2"""
+    base = DN.base_scenario(donor, seed, tier)
+    rp = R.sub(seed, "program")
+    prog = base["program"]
+    nb = len(DN.bar_times(base["world"]))
+    # a few of the donor's operations are moved into notify (they run when something is notified in that bar)
+    for o in prog:
+        if o["bar"] >= 0 and rp.random() < 0.08:
+            o["phase"] = "notify"
+    prog.sort(key=lambda o: (o["bar"], ORDER.index(o["phase"])))
+    opts = {"extra_triggers": rp.choice([0, 0, 1, 2, 3]), "trigger_phase": rp.random() < 0.5}
+    faults = [{"kind": "donor:" + donor}]
+    # an option market with many listed instruments: its (time, instrument) frame then has more ROWS than the minutely
+    # co-market has minutes, although it has far fewer distinct timestamps (real order-book files list hundreds)
+    w = base["world"]
+    kinds = {m["kind"] for m in w["markets"]}
+    if "deribit" in kinds and len(kinds) > 1 and rp.random() < 0.45:
+        for mw in w["markets"]:
+            if mw["kind"] == "deribit" and len(mw["hours"]) * len(mw["instruments"]) <= int(w["n"]) < 400:
+                _inflate_instruments(mw, int(w["n"]) // max(1, len(mw["hours"])) + 3)
+                faults.append({"kind": "hourly_frame_longer_than_minute_frame"})
+    return {"property": ID, "seed": seed, "world": w, "program": prog, "faults": faults, "opts": opts, "donor": donor}
+
+
+def _inflate_instruments(mw, per_hour):
+    """list `per_hour` instruments in every hour by cloning the first one under further strikes (never traded)"""
+    from ..worlds import deribit as W
+
+    nm0 = sorted(mw["instruments"])[0]
+    ins0 = mw["instruments"][nm0]
+    j = 0
+    while len(mw["instruments"]) < per_hour:
+        j += 1
+        strike = int(ins0["strike"]) + 100000 + j
+        nm = W.instrument_name(mw["token"], pd.Timestamp(ins0["expiry"]), strike, ins0["type"])
+        if nm in mw["instruments"]:
+            continue
+        mw["instruments"][nm] = dict(ins0, strike=strike)
+        for h in mw["hours"]:
+            if nm0 in h["rows"]:
+                h["rows"][nm] = dict(h["rows"][nm0])
+
+
 def grid_labels(start, n, k):
     labs = []
     for i in range(n):
@@ -120,10 +169,15 @@ def grid_labels(start, n, k):
 class LoopOracle(Oracle):
     def finish(self, sim):
         w = sim.world
-        k = int(pd.Timedelta(w["interval"]) / pd.Timedelta("1min"))
+        k = DN.interval_minutes(w)
         start = pd.Timestamp(w["start"])
-        labels = grid_labels(start, int(w["n"]), k)
+        donor = sim.scenario.get("donor")
+        labels = DN.bar_times(w) if donor else grid_labels(start, int(w["n"]), k)
         names = [m["name"] for m in w["markets"]]
+        sim.count("probe:world:" + (donor or "uni"))
+        kinds = sorted({m["kind"] for m in w["markets"]})
+        if "deribit" in kinds and len(kinds) > 1:
+            sim.count("probe:minutely_and_hourly_markets_together")
         if sim.crash is not None:
             sim.violate("c05.crash", type(sim.crash).__name__ + "@" + "/".join(sim.crash_where[-1:]), msg=str(sim.crash)[:200])
             return
@@ -212,6 +266,8 @@ class LoopOracle(Oracle):
                         ok = self._bad(sim, b, "update_out_of_order", e)
                     stage = 4
                     updated.append(e[2])
+                elif kind == "update_actions":
+                    sim.count("probe:action_from_update")
                 elif kind == "phase" and e[2] == "after_bar":
                     if stage != 4 and not (stage in (2, 3) and not names):
                         ok = self._bad(sim, b, "after_bar_before_update", e)
@@ -246,6 +302,8 @@ class LoopOracle(Oracle):
             # ---- actions recorded in this bar (ops of this bar, in execution order)
             nact = 0
             for e in trace:
+                if e[1] == "update_actions":
+                    nact += e[3]
                 if e[1] == "op":
                     o, x = op_iter[e[2]]
                     nact += x["new_actions"]
@@ -260,7 +318,7 @@ class LoopOracle(Oracle):
                 action_bar[i2] = b
             recorded_so_far += nact
             sim.count("probe:bar_actions_" + ("0" if nact == 0 else "1" if nact == 1 else "many"))
-            sim.state(("bar", min(nact, 2), k > 1, len(names), stage))
+            sim.state(("bar", min(nact, 2), k > 1, len(names), stage, donor or "uni"))
         # ---- every record: stamped with its bar, notified exactly once in that bar, in recording order
         if recorded_so_far != n_actions_total:
             sim.violate("c05.records_unaccounted", "run", traced=recorded_so_far, total=n_actions_total)
@@ -295,7 +353,7 @@ class LoopOracle(Oracle):
             m_ = tsx.hour * 60 + tsx.minute
             lab = tsx.normalize() + pd.Timedelta(minutes=(m_ // k) * k)
             first_of.setdefault(lab, i)
-        for tok, series in w["prices"].items():
+        for tok, series in (w.get("prices") or {}).items():
             col = ("price", tok)
             if col not in df.columns:
                 sim.violate("c05.price_columns", "missing", token=tok)
@@ -317,6 +375,8 @@ def _raw_result(sim, outcome):
 
 
 def execute(scenario):
+    if scenario.get("donor"):
+        DN.prepare(scenario["donor"])
     sim = Sim(scenario, LoopOracle(), trace=True, strategy_cls=TracedStrategy)
     return sim.run()
 
